@@ -46,3 +46,11 @@ Print Assumptions C10_sac_gating.
 Theorem C10_sac_no_autotune_constant : forall (A : Type) upd freq (a0 : A) k, gated_run A upd freq false a0 k = a0.
 Proof. exact no_autotune_constant. Qed.
 Print Assumptions C10_sac_no_autotune_constant.
+
+(* each iteration of learn() consumes exactly num_envs * num_steps environment steps (model of learn() over the on-policy
+   collection model validated by C04/C19): the cumulative step count after iteration j is j * N * T *)
+From Lerax Require Import Common Env Tab OnPolicy C19Check C19LearnProofs.
+Theorem C10_steps_per_iteration : forall (E : env (ws Z) Q (list Q)) (P : acpol Z Q (list Q)) gamma alpha N T iters k,
+  map (fun r => fst (fst r)) (learn_records E P gamma alpha N T iters k) = map (fun j => Z.of_nat (j * N * T)) (seq 1 iters).
+Proof. exact learn_records_steps. Qed.
+Print Assumptions C10_steps_per_iteration.
